@@ -202,16 +202,20 @@ def check (hw : HwFacts) (py : PyFacts) (_d : Desc) (n : Net) : List Finding :=
       else some (fnd "cfg-field" s!"RouteCfg.{k}" "not a field of floo_pkg::route_cfg_t")) ++
     ((structFields hw "route_cfg_t").filterMap fun f =>
       if n.routeCfg.any (·.1 == f) then none else some (fnd "cfg-field" s!"RouteCfg.{f}" "field of route_cfg_t not set"))
+  -- every record of a floo_pkg struct type written in the package names only fields of that struct
   let axiCfg := n.pkgParams.flatMap fun (nm, t, v) =>
-    if t.words == ["axi_cfg_t"] then
-      match v with
-      | .pat fs => fs.filterMap fun (k, _) =>
-          match k with
-          | some k => if (structFields hw "axi_cfg_t").contains k then none
-                      else some (fnd "cfg-field" s!"{nm}.{k}" "not a field of floo_pkg::axi_cfg_t")
-          | none => none
-      | _ => []
-    else []
+    match t.words with
+    | [w] =>
+      if (hw.structs.any (·.name == w)) && w != "route_cfg_t" then
+        match v with
+        | .pat fs => fs.filterMap fun (k, _) =>
+            match k with
+            | some k => if (structFields hw w).contains k || k == "default" then none
+                        else some (fnd "cfg-field" s!"{nm}.{k}" s!"not a field of floo_pkg::{w}")
+            | none => none
+        | _ => []
+      else []
+    | _ => []
   let algo := match ((n.routeCfg.find? (·.1 == "RouteAlgo")).map (·.2) : Option Expr) with
     | some (.ident a) => if (enumMembers hw "route_algo_e").any (·.1 == a) then [] else
         [fnd "route-algo" a "not a member of floo_pkg::route_algo_e"]
